@@ -9,13 +9,14 @@ import os
 import sys
 import traceback
 
-from . import api
+from . import api, modstate
 
 
 def run(module, harness, params, inputs):
     mod = importlib.import_module(module)
     h = [x for x in mod.HARNESSES if x.name == harness][0]
     x = api.NCtx(inputs)
+    modstate.sync()
     try:
         h.fn(x, dict(params))
     except api.AssumptionViolated:
